@@ -261,7 +261,7 @@ pub fn explore_batch(profile: &Profile, seed: u64, runs: u64, nworkers: usize, o
                             }
                             if let Some(step) = result.step {
                                 let opkind = trace.ops[step].kind();
-                                let owned: Vec<&Violation> = result.violations.iter().filter(|v| owners.contains(&v.owner)).collect();
+                                let owned: Vec<&Violation> = result.violations.iter().filter(|v| v.owned_by(owners)).collect();
                                 if owned.is_empty() {
                                     agg.foreign_stops += 1;
                                     let sig = format!("{}|{}", result.violations[0].signature(), opkind);
